@@ -94,6 +94,38 @@ def twin_subdags(rng, n):
     return nodes
 
 
+def pruned_beside_original(rng):
+    """one bag holding a tree AND a partially pruned copy of it (as a block's state update or a proof next to its subject
+    does): the two roots differ as cells (different top-level hash, different content) but share their level-0 hash -
+    a serialiser that identifies cells by the level-0 hash would merge them"""
+    for _ in range(20):
+        sub = G.gen_ordinary_dag(rng, rng.randrange(2, 9), deep=True)
+        infos = G.spec_dag(sub)
+        root = len(sub) - 1
+        pdb, proot, pruned = G.prune_random(rng, sub, infos, root, level=1)
+        if not pruned or not pdb.ok(proot):
+            continue
+        db = G.DagBuilder()
+        for n_ in sub:
+            db.add(*n_)
+        off = len(db.nodes)
+        for k, b, r in pdb.nodes:
+            db.add(k, b, tuple(x + off for x in r))
+        pr = off + proot
+        shape = rng.randrange(3)
+        if shape == 0:      # Merkle update original -> pruned copy (same level-0 hash on both sides)
+            top = db.add(G.MUPDATE, G.mupdate_bits(db.infos[root], db.infos[pr]), (root, pr))
+        elif shape == 1:    # the tree next to a Merkle proof of it
+            mp = db.add(G.MPROOF, G.mproof_bits(db.infos[pr]), (pr,))
+            top = db.add(G.ORD, '1', (root, mp))
+        else:               # proof first
+            mp = db.add(G.MPROOF, G.mproof_bits(db.infos[pr]), (pr,))
+            top = db.add(G.ORD, '0', (mp, root))
+        if db.ok(top):
+            return db.nodes, top
+    return None
+
+
 def payload_chain(rng, total, size_bytes):
     """A chain whose serialised cell data is exactly `total` bytes when ref indices take `size_bytes` bytes:
     leaf = 2 + d bytes, inner = 2 + d + size_bytes.  Returns nodes or None."""
@@ -178,6 +210,10 @@ def cases(ctx, scale=1.0):
         e = exotic_case(rng, rng.randrange(1, 14))
         if e:
             yield f'exotic{t}', e[0], e[1], False
+    for t in range(int(ctx.n(40, 200) * scale)):
+        e = pruned_beside_original(rng)
+        if e:
+            yield f'pruned-beside{t}', e[0], e[1], False
     # sharing
     yield 'lattice-8x4', lattice(8, 4), None, False
     yield 'lattice-40x3', lattice(40, 3), None, False
